@@ -82,7 +82,7 @@ class World:
                        "dimension_mismatch_refused", "post_fault_ops_executed", "reenter_after_exit",
                        "object_is_context_operator_twice", "poke_inside_context", "secularize_inside_context",
                        "deepcopy_inside_context", "convert_inside_context", "eso_at_inside_context", "context_operator_not_looked_at", "propagation_inside_context", "time_dependent_tensor_in_pool", "evolution_at_inside_context",
-                       "refused_construction_inside_context"]
+                       "refused_construction_inside_context", "api_sweep_call"]
     required_faults = ["F1_simfault", "F2_refused_write", "F3_dimension_mismatch"]
     components = {
         "real": ["Manager basis stack / registration / flags", "eigenbasis_of.__enter__/__exit__", "BasisManaged",
@@ -122,9 +122,9 @@ class World:
         if not any(c in CONTEXT_CLASSES for c in classes):
             classes.append("SelfAdjoint")
         opkinds = ["enter", "enter", "exit", "exit", "create", "read", "read", "write", "poke", "protect", "unprotect",
-                   "apply", "copy", "secularize", "convert", "fault", "badwrite", "opapply", "opadd", "esoat", "libprop", "evat", "badcreate"]
+                   "apply", "copy", "secularize", "convert", "fault", "badwrite", "opapply", "opadd", "esoat", "libprop", "evat", "badcreate", "apisweep"]
         if rng.random() < 0.5:
-            drop = rng.sample(["poke", "protect", "apply", "copy", "secularize", "convert", "fault", "badwrite", "opapply", "opadd", "esoat", "libprop", "evat", "badcreate"],
+            drop = rng.sample(["poke", "protect", "apply", "copy", "secularize", "convert", "fault", "badwrite", "opapply", "opadd", "esoat", "libprop", "evat", "badcreate", "apisweep"],
                               rng.randint(1, 5))
             opkinds = [k for k in opkinds if k not in drop]
         faultfree = rng.random() < 0.35
@@ -1079,6 +1079,66 @@ class Runner:
         n = self.add_obj("RDMEvolution", ev, {"data": tf("first3", got, Ti, T)}, N)
         self.ctx.ev(i, "libprop", h, r if ro is not None else None, st, self.depth, fingerprint(numpy.round(got, 6)))
         self.ctx.cov("libprop", None if ro is None else ro.cls, self.depth)
+
+    SWEEP_SKIP = ("plot", "show", "save", "load", "fig", "movie", "print", "log", "copy", "wipe", "clean")
+
+    def op_apisweep(self, i, op):
+        """Outside of all contexts: a seeded selection of all public methods of freshly built real-life objects that can be
+        called without arguments; whatever they do (many open basis contexts of their own, some protect the Hamiltonian), the
+        basis bookkeeping must be exactly as before when they return or raise."""
+        import contextlib
+        import inspect
+        import io as _io
+        qr = self.qr
+        if self.depth != 0:
+            return
+        ta = qr.TimeAxis(0.0, 50, 5.0)
+        with qr.energy_units("1/cm"):
+            mols = []
+            for e in (12000.0, 12150.0):
+                m = qr.Molecule([0.0, e])
+                cf = qr.CorrelationFunction(ta, dict(ftype="OverdampedBrownian", reorg=30.0, cortime=80.0, T=300, matsubara=10))
+                m.set_transition_environment((0, 1), cf)
+                m.set_dipole(0, 1, [1.0, 0.0, 0.0])
+                mols.append(m)
+            agg = qr.Aggregate(mols)
+            agg.set_resonance_coupling(0, 1, 90.0)
+        agg.build()
+        H = agg.get_Hamiltonian()
+        objs = {"aggregate": agg, "hamiltonian": H, "dipole": agg.get_TransitionDipoleMoment(), "molecule": mols[0],
+                "rdm": agg.get_DensityMatrix(condition_type="thermal", temperature=300)}
+        pre = self.bookkeeping()
+        cands = []
+        for name in sorted(objs):
+            for mn, meth in inspect.getmembers(objs[name], predicate=inspect.ismethod):
+                if mn.startswith("_") or any(x in mn.lower() for x in self.SWEEP_SKIP):
+                    continue
+                try:
+                    sig = inspect.signature(meth)
+                except Exception:
+                    continue
+                if any(p.default is p.empty and p.kind in (p.POSITIONAL_ONLY, p.POSITIONAL_OR_KEYWORD) for p in sig.parameters.values()):
+                    continue
+                cands.append((name, mn, meth))
+        for j in range(op.get("i", 0) + 3):
+            name, mn, meth = cands[(op["k"] * 7 + 31 * j) % len(cands)]
+            try:
+                with contextlib.redirect_stdout(_io.StringIO()):
+                    meth()
+                outcome = "returned"
+            except Exception as e:
+                outcome = "raised " + type(e).__name__
+            self.check_bookkeeping(pre, "op %d: after %s.%s() (%s)" % (i, name, mn, outcome))
+            self.check_current_operator("op %d: after %s.%s()" % (i, name, mn))
+            check(not H.is_basis_protected, "library-call-left-protection-on",
+                  lambda: "op %d: after %s.%s() (%s) the aggregate's Hamiltonian is still basis protected" % (i, name, mn, outcome))
+            for oname in ("hamiltonian", "dipole"):
+                check(objs[oname].get_current_basis() == 0, "library-call-left-basis-label",
+                      lambda: "op %d: after %s.%s() the %s carries basis id %r outside of all contexts"
+                      % (i, name, mn, oname, objs[oname].get_current_basis()))
+            self.ctx.probe("api_sweep_call")
+            self.ctx.cov("apisweep", name, mn, outcome.split()[0])
+        self.ctx.ev(i, "apisweep", op["k"])
 
     def op_evat(self, i, op):
         """ReducedDensityMatrixEvolution.at(t) hands out the state of one time as a new managed object."""
